@@ -234,7 +234,8 @@ def _c11_runs(tier):
     rs = [Run(C(), "harness/p_c11.c", ["--mode=ops", "--setbits=24"], group="ops"),
           Run(C(sse2=0, **MIN), "harness/p_c11.c", ["--mode=ops", "--setbits=24"], group="ops"),
           Run(C(thread_safe=1), "harness/p_c11.c", ["--mode=ops", "--setbits=24"], group="ops"),
-          Run(C(), "harness/p_c11.c", ["--mode=illdim"], group="illdim")]
+          Run(C(), "harness/p_c11.c", ["--mode=illdim"], group="illdim"),
+          Run(C(**MIN), "harness/p_c11.c", ["--mode=rec"], group="rec")]
     if tier == "thorough":
         rs.append(Run(C(simd="native", **MIN), "harness/p_c11.c", ["--mode=ops", "--setbits=24"], group="ops"))
         rs.append(Run(C(thread_safe=1, sse2=0), "harness/p_c11.c", ["--mode=illdim"], group="illdim"))
@@ -242,7 +243,7 @@ def _c11_runs(tier):
 
 PROPS["C11"] = dict(
     level="exploration", runs=_c11_runs,
-    rule="op registry (81 entry points) x all its shapes x 2 data sets x {all operands owned; each single operand a view at 6 placements (odd word offsets = 8-mod-16 rows) with EVERY parent word outside the view's word rectangle ASan-poisoned}, in builds {SSE2 baseline flags, no SSE2, thread-safe (header cache off: every header is a heap block, so leaks are allocator-balance violations)}; plus 25 checked wrappers x 5 base sizes x every operand dimension perturbed by -1/+1 (and negative cutoffs, too-small destinations, wrong permutation lengths), each in a forked child whose operands live in shared memory; oracle: ASan/UBSan silent (bounds, use-after-free, shift, signed overflow, alignment), allocator and header balance, child terminated by m4ri_die + SIGABRT with all operand bytes unchanged; the sanitizers are also active in every other BEX check (C01-C10, C13, C17-C20); non-trivial = every case; distinct = distinct (op, shape, data, placement) / (wrapper, size, perturbation)",
+    rule="op registry (81 entry points) x all its shapes x 2 data sets x {all operands owned; each single operand a view at 6 placements (odd word offsets = 8-mod-16 rows) with EVERY parent word outside the view's word rectangle ASan-poisoned}, in builds {SSE2 baseline flags, no SSE2, thread-safe (header cache off: every header is a heap block, so leaks are allocator-balance violations)}; plus, in the min-cache build, every routine built on block-recursive PLE (PLE, PLUQ, PLUQ echelon forms, hybrid, solve, kernel) over the REC rank-profile family on shapes whose rows end at the end of the allocation; plus 25 checked wrappers x 5 base sizes x every operand dimension perturbed by -1/+1 (and negative cutoffs, too-small destinations, wrong permutation lengths), each in a forked child whose operands live in shared memory; oracle: ASan/UBSan silent (bounds, use-after-free, shift, signed overflow, alignment), allocator and header balance, child terminated by m4ri_die + SIGABRT with all operand bytes unchanged; the sanitizers are also active in every other BEX check (C01-C10, C13, C17-C20); non-trivial = every case; distinct = distinct (op, shape, data, placement) / (wrapper, size, perturbation)",
     level_text="Bounded-exhaustive exploration with sanitizer oracles: every registered operation on every shape with operands placed so that a one-word overrun of a row lands in poisoned memory, in SIMD and scalar builds, and every single-dimension perturbation of the checked wrappers executed in an attributable child process.",
     level_note="Bounded shapes (<= 704 columns). 'pointer-overflow' (NULL + 0 on empty matrices) is not part of the statement and is disabled. Accesses to the operand's own stride-padding word are not flagged.",
     technique="bounded-exhaustive enumeration on the real code with AddressSanitizer/UBSan, poisoned surroundings and fork-per-call fate classification as oracles",
